@@ -72,6 +72,16 @@ func runC09Case(cc c09Case) (string, string) {
 		crCtx = c.CloseRead(bg)
 	case "writer-blocked":
 		go func() { writeRet <- c.Write(bg, websocket.MessageBinary, make([]byte, 1<<16)) }()
+	case "stream-writer-blocked":
+		// the blocked write goes through the message writer (a streamed message): it holds the writer's own lock while it sits
+		// in the transport
+		go func() {
+			w, err := c.Writer(bg, websocket.MessageBinary)
+			if err == nil {
+				_, err = w.Write(make([]byte, 1<<16))
+			}
+			writeRet <- err
+		}()
 	case "queued-writer":
 		// a streamed message is open (and stays open); a Write without any deadline queues behind it on the message lock
 		if w, err := c.Writer(bg, websocket.MessageText); err == nil {
@@ -209,7 +219,7 @@ func runC09Case(cc c09Case) (string, string) {
 		case <-time.After(promptBound):
 			return "blocked-read-not-released", desc + ": Read still blocked after the connection was closed"
 		}
-	case "writer-blocked", "writer-arrives", "pinger-arrives", "queued-writer":
+	case "writer-blocked", "stream-writer-blocked", "writer-arrives", "pinger-arrives", "queued-writer":
 		select {
 		case <-writeRet:
 		case <-time.After(promptBound):
@@ -291,6 +301,7 @@ func runC09(ctx *runCtx) {
 			cases = append(cases, c09Case{Client: client, Peer: "flood-never-reads", Local: "reader-blocked", Op: op},
 				c09Case{Client: client, Peer: "flood-never-reads", Local: "closeread", Op: op},
 				c09Case{Client: client, Peer: "silent", Local: "queued-writer", Op: op},
+				c09Case{Client: client, Peer: "never-reads", Local: "stream-writer-blocked", Op: op},
 				c09Case{Client: client, Peer: "silent", Local: "half-read-then-reader", Op: op},
 				c09Case{Client: client, Peer: "stall-payload", K: 100, Local: "half-read-then-reader", Op: op},
 				c09Case{Client: client, Peer: "silent", Local: "pinger-arrives", Op: op},
